@@ -50,7 +50,9 @@ impl Join {
     }
 
     fn wait(&self) {
-        if self.state.load(Ordering::Acquire) {
+        // a park can return before the coroutine is done (e.g. woken by a cancel
+        // that is currently disabled), so loop until the state is cleared
+        while self.state.load(Ordering::Acquire) {
             let cur = Blocker::current();
             // register the blocker first
             self.to_wake.store(cur.clone());
